@@ -16,6 +16,8 @@ PARAMS = [
     ('mk_atmo', 'pressure', '_pressure', 'pressure', U.Pressure, [Unit.InHg, Unit.hPa], Real(lo=0, hi=1100)),   # bare 0: see known finding C07/pressure
     ('mk_atmo', 'temperature', '_temperature', 'temperature', U.Temperature, [Unit.Fahrenheit, Unit.Celsius], Real(lo=-60, hi=130)),
     ('mk_atmo', 'powder_t', '_powder_temp', 'temperature', U.Temperature, [Unit.Fahrenheit, Unit.Celsius], Real(lo=-60, hi=130)),
+    ('mk_icao', 'altitude', '_altitude', 'distance', U.Distance, [Unit.Yard, Unit.Meter], Real(lo=-400, hi=5000)),
+    ('mk_icao', 'temperature', '_temperature', 'temperature', U.Temperature, [Unit.Fahrenheit, Unit.Celsius], Real(lo=-60, hi=130)),
     ('mk_wind', 'velocity', 'velocity', 'velocity', U.Velocity, [Unit.FPS, Unit.MPS], Real(lo=0, hi=100)),
     ('mk_wind', 'direction_from', 'direction_from', 'angular', U.Angular, [Unit.Degree, Unit.Radian], ANG),
     ('mk_wind', 'until_distance', 'until_distance', 'distance', U.Distance, [Unit.Yard, Unit.Meter], Real(lo=0, hi=5000)),
@@ -38,7 +40,11 @@ PARAMS = [
     ('mk_bcpoint', 'V', 'V', 'velocity', U.Velocity, [Unit.FPS, Unit.MPS], Real(lo=1, hi=5000)),
 ]
 
+# C17: "the velocity the solver launches with is the one for the atmosphere's powder temperature (air temperature unless
+# given)": what the atmosphere / the ammunition store for a given (bare or explicit) temperature is part of that chain
+C17_TOO = {('mk_atmo', 'powder_t'), ('mk_atmo', 'temperature'), ('mk_ammo', 'powder_temp'), ('mk_ammo', 'mv')}
 for fac, pname, field, slot, cls, units, rng in PARAMS:
+    PROPS = ('C07', 'C17') if (fac, pname) in C17_TOO else ('C07',)
     ctor = getattr(S, fac)
     same = f'raw(result[0].{field}) == raw(result[1].{field})'
     if pname == 'pressure':
@@ -49,10 +55,17 @@ for fac, pname, field, slot, cls, units, rng in PARAMS:
                ('bare-pressure-zero-case-means-zero', f'implies(x == 0, {same})')]
     else:
         ens = [(f'bare-{pname}-means-that-number-in-the-preferred-unit-for-every-number-including-zero', same)]
-    contract(f'{SF}::bare_vs_quantity', tag=f'{fac}.{pname}', props=('C07',),
+    contract(f'{SF}::bare_vs_quantity', tag=f'{fac}.{pname}', props=PROPS,
              params=dict(ctor=Const(ctor, src=fac), pname=Const(pname), slot=Const(slot), unit=Enum(*units), x=rng),
              ensures=ens, modifies=DISPLAY_ONLY, reveal=['pl_sorted_ok'] if fac == 'mk_multibc' else ())
-    contract(f'{SF}::quantity_under_two_settings', tag=f'{fac}.{pname}', props=('C07',),
+    if pname != 'pressure':
+        contract(f'{SF}::bare_under_two_settings', tag=f'{fac}.{pname}', props=PROPS,
+                 params=dict(ctor=Const(ctor, src=fac), pname=Const(pname), slot=Const(slot), unit_a=Const(units[0]),
+                             unit_b=Const(units[1]), x=rng),
+                 ensures=[(f'the-same-bare-{pname}-under-two-successive-settings-means-the-unit-in-force-each-time',
+                           f'raw(result[0].{field}) == raw(result[1].{field}) and raw(result[2].{field}) == raw(result[3].{field})')],
+                 modifies=DISPLAY_ONLY, reveal=['pl_sorted_ok'] if fac == 'mk_multibc' else ())
+    contract(f'{SF}::quantity_under_two_settings', tag=f'{fac}.{pname}', props=PROPS,
              params=dict(ctor=Const(ctor, src=fac), pname=Const(pname), slot=Const(slot), unit_a=Const(units[0]),
                          unit_b=Const(units[1]), q=Quantity(cls, units=units[:1], value=rng)),
              ensures=[(f'explicit-{pname}-is-independent-of-the-preferred-unit',
@@ -86,4 +99,17 @@ contract(f'{SF}::powder_sens_bare_vs_quantity', tag='velocity', props=('C07', 'C
 contract(f'{SF}::velocity_for_temp_bare_vs_quantity', props=('C07', 'C17'),
          params=dict(unit=Enum(Unit.Fahrenheit, Unit.Celsius, Unit.Kelvin), x=Real(lo=-60, hi=400), modifier=Real()),
          ensures=[('bare-temperature-means-that-number-in-the-preferred-unit', 'raw(result[0]) == raw(result[1])')],
+         modifies=DISPLAY_ONLY)
+
+contract(f'{SF}::atmo_powder_temperature', props=('C17',),
+         params=dict(temperature=OneOf(Const(None), Quantity(U.Temperature, units=[Unit.Celsius, Unit.Fahrenheit],
+                                                             value=Real(lo=-60, hi=130))),
+                     powder_t=OneOf(Const(None), Quantity(U.Temperature, units=[Unit.Celsius, Unit.Fahrenheit],
+                                                          value=Real(lo=-60, hi=130)))),
+         ensures=[('powder-temperature-is-the-air-temperature-unless-given',
+                   'implies(powder_t is None, raw(result._powder_temp) == raw(result._temperature))'),
+                  ('a-given-powder-temperature-is-kept',
+                   '(raw(result._powder_temp) == raw(powder_t)) if powder_t is not None else True'),
+                  ('a-given-air-temperature-is-kept',
+                   '(raw(result._temperature) == raw(temperature)) if temperature is not None else True')],
          modifies=DISPLAY_ONLY)
